@@ -556,6 +556,39 @@ def scan(repo):
     }
 
 
+SELFTEST_SRC = r"""
+use std::collections::{HashMap, HashSet};
+pub struct Reg { pub table: HashMap<String, u32>, names: Vec<String>, tags: HashSet<u8> }
+type Alias<'a> = HashMap<&'a str, u32>;
+fn build() -> HashMap<String, u32> { HashMap::new() }
+impl Reg {
+    pub fn a(&self) -> Vec<u32> { self.table.values().copied().collect() }          // values
+    pub fn b(&self) { for (k, v) in &self.table { drop((k, v)); } }                  // for
+    pub fn c(&mut self, other: Reg) { self.names.extend(other.tags); }               // arg:extend
+    pub fn d(&self) -> Option<&u32> { self.table.get("x") }                          // key only
+    pub fn e(&self) { for n in self.names.iter() { drop(n); } }                      // Vec: not reported
+    pub fn f() { let m = build(); for x in m.keys() { drop(x); } }                   // keys via hash-returning fn
+    pub fn g(x: &Alias) -> usize { x.iter().count() }                                // iter via alias-typed parameter
+    pub fn h() { let s: HashSet<u8> = HashSet::new(); let v: Vec<u8> = s.into_iter().collect(); drop(v); } // into_iter
+    pub fn i(&self) { let table = vec![1]; for t in table.iter() { drop(t); } }      // shadowed by a Vec: not reported
+    pub fn j(&self) { let c = self.table.clone().into_iter().count(); drop(c); }     // through clone()
+}
+#[cfg(test)]
+mod tests { fn t(r: &super::Reg) { for _ in r.table.iter() {} } }                    // test code: ignored
+"""
+SELFTEST_EXPECT = {("a", "table", "values"), ("b", "table", "for"), ("c", "tags", "arg:extend"), ("f", "m", "keys"),
+                   ("g", "x", "iter"), ("h", "s", "into_iter"), ("j", "table", "into_iter")}
+
+
+def selftest():
+    """the scanner must find exactly the planted sites in a synthetic source; fails closed otherwise"""
+    toks = {"selftest.rs": strip_cfg_test(tokenize(SELFTEST_SRC, "selftest.rs"))}
+    aliases, fields, fns, nonhash = collect_globals(toks)
+    got = set((fn, b, op) for (_, fn, b, op) in scan_file("selftest.rs", toks["selftest.rs"], aliases, fields, fns, nonhash))
+    if got != SELFTEST_EXPECT:
+        raise RuntimeError("gen_c17 self-test failed: missing %s, unexpected %s" % (sorted(SELFTEST_EXPECT - got), sorted(got - SELFTEST_EXPECT)))
+
+
 def coq_s(x):
     assert all(32 <= ord(c) < 127 for c in x), x
     return '(s "%s")' % x.replace('"', '""')
@@ -588,6 +621,7 @@ def render(res):
 
 
 def generate(repo, verif):
+    selftest()
     res = scan(repo)
     text = render(res)
     d = os.path.join(verif, "coq", "Gen")
